@@ -26,14 +26,15 @@ ASSUMPTIONS = [
     'token ids are non-empty strings (checked for the folded lexer tables)',
     'a method of Parser annotated bool/str hands its last consumed token to the caller; one annotated with a node type returns a finished fragment',
 ]
-TECHNIQUE = 'path-sensitive linear typestate with callee-summary fixpoint; CFG dominance; exception-escape closure over the call graph; regex-language facts; visitor/field table agreement'
+TECHNIQUE = ('path-sensitive linear typestate with a callee-summary fixpoint (tokens and tree fragments); CFG dominance/reachability; who-may-write; '
+             'exception-escape closure over the call graph with per-site totality proofs; regex-language facts on the folded lexer tables; '
+             'field/visitor table agreement; symbolic (linear-form) comparison of update expressions; no repository code is interpreted on sample inputs')
 
 
 def r1(ctx: RuleCtx) -> None:
-    from .c02_tokens import Analyzer
+    from .c02_tokens import analysed
     mod = ctx.repo.module(MPARSER)
-    an = Analyzer(ctx.repo)
-    an.run()
+    an = analysed(ctx.repo)
     ctx.ok(f'stream advance primitive: only Parser.{an.primitive} writes self.previous; node wrapper Parser.{an.ctor_wrapper}; '
            f'kinds without own text {sorted(an.exempt)} (derived from {an.primitive})')
     ctx.require(an.exempt == {'eol', 'eof'}, 'exempt kinds are eol (already in current_ws) and eof (synthetic)', mod, f'Parser.{an.primitive}',
@@ -67,18 +68,66 @@ _R1_SAMPLE = '''
             return left
         return left
 '''
+_R2_SAMPLE = '''
+    def _verif_probe(self) -> None:
+        self.current_ws = []
+'''
+_R3_SAMPLE = '''
+
+class VerifProbeNode(BaseNode):
+    inner: BaseNode
+
+    def __init__(self, inner: BaseNode):
+        super().__init__(inner.lineno, inner.colno, inner.filename)
+        self.inner = inner
+
+    def clone(self) -> 'VerifProbeNode':
+        return VerifProbeNode(self.inner)
+'''
+_R6_SAMPLE = '''
+
+class VerifProbeNode(BaseNode):
+    lpar: SymbolNode
+    rpar: SymbolNode
+
+    def __init__(self, lpar: SymbolNode, rpar: SymbolNode):
+        super().__init__(lpar.lineno, lpar.colno, lpar.filename, end_lineno=rpar.lineno, end_colno=rpar.colno)
+        self.lpar = lpar
+        self.rpar = rpar
+'''
+
+
+def _scratch(ctx: RuleCtx, method: str = '', tail: str = '') -> T.Any:
+    """A scratch overlay of mparser.py with a synthetic Parser method and/or module tail (positive examples only)."""
+    from ..core import Repo
+    mod = ctx.repo.module(MPARSER)
+    lines = mod.src.split('\n')
+    if method:
+        end = mod.cls('Parser').end_lineno or len(lines)
+        lines[end:end] = method.split('\n')
+    src = '\n'.join(lines) + tail
+    ov = dict(ctx.repo.overlay)
+    ov[MPARSER] = src
+    return Repo(ctx.repo.root, ov)
+
+
+def _probe(ctx: RuleCtx, fn: T.Callable[[RuleCtx], None], repo: T.Any, what: str) -> None:
+    """Every run shows that the rule can fire: it must report the synthetic defect in the scratch overlay."""
+    from ..report import Check, RuleCtx as RC
+    from ..core import AnalysisError
+    c2 = RC(Check(ctx.check.prop, repo, 'quick'), ctx.rule_id, 'positive example')
+    try:
+        fn(c2)
+    except AnalysisError as e:
+        raise Undecided(f'positive example ({what}) ended undecided: {e}')
+    if not any('VerifProbe' in f.function + f.construct + f.message or '_verif_probe' in f.function + f.message for f in c2.findings):
+        raise Undecided(f'positive example ({what}) was not reported: the rule cannot fire')
+    ctx.note(f'built-in positive example reported: {what}')
 
 
 def _selfcheck_r1(ctx: RuleCtx, seed: T.Any) -> None:
-    from ..core import Repo
     from .c02_tokens import Analyzer
-    src = ctx.repo.read(MPARSER)
-    anchor = '    def statement(self)'
-    if src.count(anchor) != 1:
-        raise Undecided('positive example for R1: anchor `def statement` not unique')
-    ov = dict(ctx.repo.overlay)
-    ov[MPARSER] = src.replace(anchor, _R1_SAMPLE + '\n' + anchor)
-    an = Analyzer(Repo(ctx.repo.root, ov), only={'_verif_probe'}, seed=seed)
+    an = Analyzer(_scratch(ctx, method=_R1_SAMPLE), only={'_verif_probe'}, seed=seed)
     an.run()
     hit = [s for s in an.sites.values() if s.fn == '_verif_probe' and s.bad]
     if not hit:
@@ -87,6 +136,11 @@ def _selfcheck_r1(ctx: RuleCtx, seed: T.Any) -> None:
 
 
 def r2(ctx: RuleCtx) -> None:
+    _r2_core(ctx)
+    _probe(ctx, _r2_core, _scratch(ctx, method=_R2_SAMPLE), 'a method resetting current_ws without flushing it')
+
+
+def _r2_core(ctx: RuleCtx) -> None:
     from .c02_tokens import Analyzer
     from . import c02_ws
     an = Analyzer(ctx.repo)
@@ -94,7 +148,65 @@ def r2(ctx: RuleCtx) -> None:
     c02_ws.check_buffer(ctx, an.model, an.primitive, an.ctor_wrapper)
 
 
+def r3(ctx: RuleCtx) -> None:
+    _r3_core(ctx)
+    _probe(ctx, _r3_replay_only, _scratch(ctx, tail=_R3_SAMPLE), 'a node class with a child field and no visit method')
+
+
+def _r3_replay_only(ctx: RuleCtx) -> None:
+    from .c02_model import NodeModel
+    from . import c02_printer as cp
+    cp.check_replay(ctx, NodeModel(ctx.repo))
+
+
+def _r3_core(ctx: RuleCtx) -> None:
+    from .c02_model import NodeModel
+    from . import c02_printer as cp
+    model = NodeModel(ctx.repo)
+    cp.check_replay(ctx, model)
+    bool_map, strip = cp.lexer_facts(ctx, model)
+    ctx.note(f'parser: keyword -> constant per class {bool_map}; lexer: characters stripped per string token {strip}')
+    from .c02_tokens import analysed
+    kinds: T.Dict[str, T.Set[T.Any]] = {}
+    for cls, ks in analysed(ctx.repo).ctor_kinds.items():
+        for k in ks:
+            kinds.setdefault(cls, set()).update(k if isinstance(k, frozenset) else [k])
+    cp.check_terminals(ctx, model, bool_map, strip, kinds)
+    cp.check_equality(ctx, model)
+
+
+def r4(ctx: RuleCtx) -> None:
+    from .c02_tokens import analysed
+    from . import c02_escape
+    c02_escape.check(ctx, analysed(ctx.repo))
+    from .. import rx
+    alts = rx.branch_alternatives(r'0|[1-9]\d*') + rx.branch_alternatives(r'[1-9]\d{0,8}')
+    got = [c02_escape._int_alt(a, True) for a in alts]
+    if got[0] is not None or got[1] is None or got[2] is not None:
+        raise Undecided(f'positive example for R4: int() totality of regex alternatives is misjudged: {got}')
+    ctx.note('built-in positive example: `[1-9]\\d*` is an unbounded decimal (partial for int()), `[1-9]\\d{0,8}` is total')
+
+
+def r5(ctx: RuleCtx) -> None:
+    from . import c02_lex
+    from .. import rx
+    c02_lex.check_lines(ctx)
+    if not rx.matches_char(r"'([^'\\\\]|(\\\\.))*'", '\n') or rx.matches_char(r'#.*', '\n'):
+        raise Undecided('positive example for R5: the regex-language test does not separate a quoted-string regex from a comment regex')
+    ctx.note('built-in positive example: a negated class admits a newline, `.` does not')
+
+
+def r6(ctx: RuleCtx) -> None:
+    from . import c02_lex
+    c02_lex.check_extents(ctx)
+    _probe(ctx, lambda c: c02_lex.check_extents(c, {'VerifProbeNode': 'full'}), _scratch(ctx, tail=_R6_SAMPLE), 'an extent that ends at the closing token without +1')
+
+
 RULES = [
     Rule('C02.R1', 'token and fragment conservation (linear typestate, all paths, callee summaries)', r1),
     Rule('C02.R2', 'pending-whitespace buffer: reset only after a flush; removed prefix re-attached', r2),
+    Rule('C02.R3', 'full-fidelity replay: every field once in textual order, raw text of terminals, positional equality', r3),
+    Rule('C02.R4', 'only MesonException escapes the lexer/parser entry points (partial operations, recursion)', r4),
+    Rule('C02.R5', 'newline-capable token kinds update lineno and line_start consistently', r5),
+    Rule('C02.R6', 'extents of spliced nodes: first field .. closing token + 1', r6),
 ]
